@@ -126,6 +126,11 @@ Definition grew_below_minimum (pre post : obs) : bool :=
 
 (* [present]: the key is in the reference map.  An insertion-type call on a present key finds the duplicate before any
    expansion, so it can never end in a policy exception (InsertLemmas / NoFuel.uprase_gen_present_no_exn). *)
+(* load_factor_too_low is thrown only when the load factor - the elements present before the call over the capacity
+   at the hashpower where the expansion was refused, i.e. the one the call ends at - is STRICTLY below the minimum *)
+Definition lf_below (pre post : obs) : bool :=
+  o_size pre * o_mlfd pre <? o_mlfn pre * (N.shiftl 1 (o_hp post) * spb_).
+
 Definition judge_insertish (present : bool) (s : sst) (a : nat) (t : stab) (pre post : obs) (r : out) (exp : out) (m' : smap)
   (cl : clause) : verdict :=
   if grew_below_minimum pre post then
@@ -135,7 +140,7 @@ Definition judge_insertish (present : bool) (s : sst) (a : nat) (t : stab) (pre 
   else if is_exn r EMaxHashpower then
     if negb present && maxhp_allowed pre post None then ok (inval s) else blame (inval s) C10_limit
   else if is_exn r ELoadFactorTooLow then
-    if negb present && lf_allowed pre then ok (inval s) else blame (inval s) C10_limit
+    if negb present && lf_allowed pre && lf_below pre post then ok (inval s) else blame (inval s) C10_limit
   else blame (inval s) cl.
 
 Definition fn_out (found : option Z) (newly : bool) : out :=
@@ -351,7 +356,7 @@ Definition judge_op (s : sst) (a : nat) (o : op) (r : out) (pre post : obs) : ve
         if Bool.eqb ins exp_ins then ok (inval (put_m s a t m')) else blame (inval s) C09_iter
       | _ =>
         if is_exn r EMaxHashpower then (if maxhp_allowed pre post None then ok (inval s) else blame (inval s) C10_limit)
-        else if is_exn r ELoadFactorTooLow then (if lf_allowed pre then ok (inval s) else blame (inval s) C10_limit)
+        else if is_exn r ELoadFactorTooLow then (if lf_allowed pre && lf_below pre post then ok (inval s) else blame (inval s) C10_limit)
         else blame (inval s) C09_iter
       end
     | LIdx k =>
